@@ -286,7 +286,14 @@ func (v *parser_) parseCollection() (
 	case "Catalog":
 		var catalog = col.Catalog[any, any](notation).Make()
 		for _, item := range sequence.AsArray() {
-			var association = item.(col.AssociationLike[any, any])
+			var association, isAssociation = item.(col.AssociationLike[any, any])
+			if !isAssociation {
+				var message = v.formatError(token)
+				message += v.generateSyntax("Association",
+					"Associations",
+					"Association")
+				panic(message)
+			}
 			var key = association.GetKey()
 			var value = association.GetValue()
 			catalog.SetValue(key, value)
@@ -295,7 +302,14 @@ func (v *parser_) parseCollection() (
 	case "Map":
 		var map_ = col.Map[any, any](notation).Make()
 		for _, item := range sequence.AsArray() {
-			var association = item.(col.AssociationLike[any, any])
+			var association, isAssociation = item.(col.AssociationLike[any, any])
+			if !isAssociation {
+				var message = v.formatError(token)
+				message += v.generateSyntax("Association",
+					"Associations",
+					"Association")
+				panic(message)
+			}
 			var key = association.GetKey()
 			var value = association.GetValue()
 			map_.SetValue(key, value)
